@@ -191,6 +191,43 @@ fn col(v: &Option<Value>) -> String {
 	match v { None => String::new(), Some(Value::String(s)) => s.clone(), Some(x) => cfkit::facts::s_display(x) }
 }
 
+/// What C01 decided not to be facts of a class file (spec/duke/NOTES-C01.md, ClassFacts!IsFactDifference) is removed from
+/// both sides alike: BootstrapMethods entries nothing uses, attributes with an empty table (annotations at all levels,
+/// StackMapTable, LineNumberTable, LocalVariable(Type)Table), access-flag bits JVMS assigns no meaning, and the bits of
+/// Z B C S element values beyond the declared type.
+fn normalise_nonfacts(v: &mut Value, ctx: &str) {
+	const EMPTY_IS_ABSENT: &[&str] = &["RuntimeVisibleAnnotations", "RuntimeInvisibleAnnotations", "RuntimeVisibleTypeAnnotations", "RuntimeInvisibleTypeAnnotations",
+		"RuntimeVisibleParameterAnnotations", "RuntimeInvisibleParameterAnnotations", "StackMapTable", "LineNumberTable", "LocalVariableTable", "LocalVariableTypeTable"];
+	match v {
+		Value::Object(m) => {
+			m.remove("unreferenced_bootstrap");
+			m.retain(|k, x| !(EMPTY_IS_ABSENT.contains(&k.as_str()) && x.as_array().map_or(false, |a| a.is_empty())));
+			if let Some(a) = m.get("access").and_then(Value::as_u64) {
+				let mask: u64 = match ctx {
+					"" => 0xF631, "fields" => 0x50DF, "methods" => 0x1DFF, "InnerClasses" => 0x761F, "MethodParameters" => 0x9010,
+					"Module" => 0x9020, "requires" => 0x9060, "exports" | "opens" => 0x9000, _ => 0xFFFF,
+				};
+				m.insert("access".into(), json!(a & mask));
+			}
+			if m.len() == 1 {
+				for (t, bits) in [("Z", 0u32), ("B", 8), ("C", 16), ("S", 16)] {
+					if let Some(n) = m.get(t).and_then(Value::as_i64) {
+						let x = match t { "Z" => (n != 0) as i64, "B" => n as i8 as i64, "C" => n as u16 as i64, _ => n as i16 as i64 };
+						let _ = bits;
+						m.insert(t.into(), json!(x));
+					}
+				}
+			}
+			for (k, x) in m.iter_mut() {
+				let c = if ["fields", "methods", "InnerClasses", "MethodParameters", "Module", "requires", "exports", "opens"].contains(&k.as_str()) { k.as_str() } else { ctx };
+				normalise_nonfacts(x, if k == "attrs" || k == "Code" { ctx } else { c });
+			}
+		},
+		Value::Array(a) => for x in a.iter_mut() { normalise_nonfacts(x, ctx); },
+		_ => {},
+	}
+}
+
 /// The order of LocalVariable(Type)Table rows is not a fact; cfkit sorts them by content, i.e. by descriptor first.
 /// Here: by the columns that are no references, so that renaming cannot permute them.
 fn normalise_local_tables(facts: &mut Value) {
@@ -269,7 +306,10 @@ fn chunks(res: &Value) -> Value {
 	let mut out = Map::new();
 	let mut put = |k: String, v: &Value| { out.insert(k, json!(hash(v))); };
 	put("hdr".into(), &json!([res["version"], res["access"], res["this"], res["super"], res["interfaces"], res["fields"].as_array().map(|a| a.len()), res["methods"].as_array().map(|a| a.len())]));
-	for (k, v) in res["attrs"].as_object().into_iter().flatten() { put(format!("a/{k}"), v); }
+	for (k, v) in res["attrs"].as_object().into_iter().flatten() {
+		// a Record attribute without components still says "this is a record" (it is not an empty table that states nothing)
+		put(if k == "Record" && v.as_array().map_or(false, |a| a.is_empty()) { "a/Record(empty)".to_owned() } else { format!("a/{k}") }, v);
+	}
 	for (i, f) in res["fields"].as_array().into_iter().flatten().enumerate() {
 		put(format!("f{i}"), &json!([f["access"], f["name"], f["desc"]]));
 		for (k, v) in f["attrs"].as_object().into_iter().flatten() { put(format!("f{i}/{k}"), v); }
@@ -300,6 +340,7 @@ fn raw_summary(raw: &Value) -> Value {
 }
 
 fn observe_facts(mut facts: Value) -> Value {
+	normalise_nonfacts(&mut facts, "");
 	normalise_local_tables(&mut facts);
 	let mut res = cfkit::refs::residual(&facts);
 	walk_annotations(&mut res, "", &mut |a, _| for p in a["pairs"].as_array_mut().into_iter().flatten() { if let Some(n) = p.get_mut(0) { *n = json!("_"); } });
@@ -477,7 +518,8 @@ fn build_mappings(r: &mut StdRng, classes: &[(String, Vec<(String, String)>, Vec
 	for (name, fields, methods) in sorted.into_iter().map(|c| (&c.0, &c.1, &c.2)) {
 		if kids.contains_key(&format!("c {name}")) || name.starts_with('[') || name == "module-info" { continue; }
 		let outer_t = name.rfind('$').and_then(|p| targets.get(&name[..p])).cloned();
-		let renamed = r.gen_bool(p_class);
+		// java/lang/Object keeps its name (the meaning of an <init> frame depends on it); its members may be renamed
+		let renamed = name != "java/lang/Object" && r.gen_bool(p_class);
 		let target = if renamed { g.class_target(r, name, outer_t.as_deref()) } else if r.gen_bool(0.7) { name.clone() } else { String::new() };
 		if renamed { targets.insert(name.clone(), target.clone()); }
 		let mut mk = Map::new();
@@ -559,8 +601,13 @@ fn gen_corpus(r: &mut StdRng) -> Value {
 	json!({"op": "remap", "cls": "corpus", "M": m, "lib": Value::Object(lib), "jar": jar})
 }
 
+/// Samples that are no well-formed class files (NOTES-C01.md: empty names, duplicate attributes, version 65535.65535,
+/// SourceDebugExtension that is not modified UTF-8): outside the property.
+/// `local_variable_tables` has a LocalVariableTable row that starts at code_length (JVMS 4.7.13: start_pc must be an opcode index).
+const NOT_WELL_FORMED: &[&str] = &["odd_strings", "duplicate_attributes", "extreme_numbers", "source_debug_extension_not_mutf8", "local_variable_tables"];
+
 fn gen_sample(r: &mut StdRng, i: usize) -> Value {
-	let mut names: Vec<&String> = samples().keys().filter(|n| !["odd_strings"].contains(&n.as_str())).collect();
+	let mut names: Vec<&String> = samples().keys().filter(|n| !NOT_WELL_FORMED.contains(&n.as_str())).collect();
 	names.sort();
 	let name = names[i % names.len()];
 	let f = &samples()[name];
@@ -669,7 +716,8 @@ fn gen_items(r: &mut StdRng) -> Value {
 				18 => json!({"t": "permitted", "c": c}),
 				19 => json!({"t": "exceptions", "c": c}),
 				20 => { let f = d.1.first().cloned().unwrap_or(("rc".into(), "I".into())); json!({"t": "record", "n": f.0, "d": f.1}) },
-				21 => json!({"t": "insn_method", "o": format!("[L{c};"), "n": "clone", "d": "()Ljava/lang/Object;"}),
+				21 => if r.gen_bool(0.6) { json!({"t": "insn_method", "o": format!("[L{c};"), "n": "clone", "d": "()Ljava/lang/Object;"}) }
+					else { json!({"t": "insn_method", "o": format!("[[L{c};"), "n": "equals", "d": format!("(L{};)Z", any_class(r))}) },
 				22 => { let sg = match c.rfind('$') { Some(p) => format!("L{}<TT;>.{};", &c[..p], &c[p + 1..]), None => format!("L{c};") }; json!({"t": "sig", "s": sg}) },
 				_ => json!({"t": "lvtt", "s": "TT;"}),
 			};
@@ -696,7 +744,7 @@ fn gen_items(r: &mut StdRng) -> Value {
 
 pub fn gen(seed: u64, n: usize) -> Result<Vec<Value>> {
 	let mut r = StdRng::seed_from_u64(seed ^ 0xC07);
-	let nsamples = samples().len() - 1;
+	let nsamples = samples().len() - NOT_WELL_FORMED.len();
 	let mut out = vec![];
 	// every sample class once (each reference kind occurs among them), then corpus jars and generated jars
 	for i in 0..nsamples.min(n) { out.push(gen_sample(&mut r, i)); }
